@@ -96,6 +96,19 @@ class N12(PaneBase, out_rename='camel'):
     item_list: int = 0
 
 
+_TB15 = t.TypeVar('_TB15')
+
+
+class GBox15(PaneBase, t.Generic[_TB15]):
+    item_value: _TB15
+    item_count: int = 0
+
+
+class N13(GBox15[int], rename='kebab'):
+    """an ordinary subclass of a SPECIALISATION of a generic class: its own rename style and a new aliased field"""
+    extra_tag: int = field(default=0, aliases=('xt',))
+
+
 class N8(PaneBase, in_format=('struct',), out_format='struct'):
     """struct only: sequences are refused"""
     a: int = 0
@@ -142,13 +155,18 @@ REF = {
            ('item_list', ('item_list', 'itemList'), 'ITEM_LIST', False, True, True, False),
            ('max_depth', ('max_depth', 'maxd'), 'maxd', False, True, True, False)),
           dict(allow_extra=False, in_format=('struct',), out_format='struct')),
+    N13: ((('item_value', ('item_value', 'item-value'), 'item-value', True, True, True, False),
+           ('item_count', ('item_count', 'item-count'), 'item-count', False, True, True, False),
+           ('extra_tag', ('extra_tag', 'extra-tag', 'xt'), 'extra-tag', False, True, True, False)),
+          dict(allow_extra=False, in_format=('struct',), out_format='struct')),
     N12: ((('retry_count', ('retry_count', 'retries'), 'retryCount', False, True, True, False),
            ('item_list', ('item_list',), 'itemList', False, True, True, False)),
           dict(allow_extra=False, in_format=('struct',), out_format='struct')),
 }
 DEFAULT = {N1: {'b': 0}, N2: {'c': 0, 'd': 0, 'e': 0, 'f': 0}, N3: {'baz': 0, 'qux_x': 0, 'r_f': 0}, N4: {'baz': 0}, N5: {'b': 0},
            N6: {'b': 0, 'c': 'nine', 'd': 1, 'k': 0}, N10: {'b': 0, 'c': 2, 'k': 'kay', 'm': 'em'},
-           N11: {'retry_count': 0, 'item_list': 0, 'max_depth': 0}, N12: {'retry_count': 0, 'item_list': 0}, N7: {'b': 0, 'x': 5}, N8: {'a': 0}, N9: {'b': [], 'c': 0}}
+           N11: {'retry_count': 0, 'item_list': 0, 'max_depth': 0}, N12: {'retry_count': 0, 'item_list': 0},
+           N13: {'item_count': 0, 'extra_tag': 0}, N7: {'b': 0, 'x': 5}, N8: {'a': 0}, N9: {'b': [], 'c': 0}}
 # key vocabulary per class: every name the class can distinguish in some style + foreign keys
 VOCAB = {
     N1: ('a', 'b', 'A', 'zz'),
@@ -163,6 +181,7 @@ VOCAB = {
     N10: ('a', 'b', 'c', 'k', 'm'),
     N11: ('retry_count', 'retryCount', 'RETRY_COUNT', 'retries', 'item_list', 'itemList', 'ITEM_LIST', 'max_depth', 'maxd', 'md', 'maxDepth', 'MAXD', 'zz'),
     N12: ('retry_count', 'retryCount', 'retries', 'item_list', 'itemList', 'zz'),
+    N13: ('item_value', 'item-value', 'itemValue', 'item_count', 'item-count', 'extra_tag', 'extra-tag', 'xt', 'zz'),
 }
 for _c in REF:
     make_converter(_c)
@@ -310,7 +329,7 @@ def body_map_{name}(nk: int, y1: int, y2: int, y3: int, i1: int, i2: int, i3: in
         d[k3] = i3
     return check_mapping({name}, d)
 '''
-for _c in (N1, N2, N3, N4, N5, N7, N8, N11, N12):
+for _c in (N1, N2, N3, N4, N5, N7, N8, N11, N12, N13):
     _nv = len(VOCAB[_c]) - 1
     exec(_MAP.format(name=_c.__name__, nv=_nv, nv3=min(_nv, 3)))
 
